@@ -628,3 +628,169 @@ func init() {
 		return nil
 	}
 }
+
+// ---- 6. orders of SetVariable / AddFunction / Prepare / Run / GetVariable ----
+
+// ApiStep is one API call of a generated call order.
+type ApiStep struct {
+	Op   string     `json:"op"` // addfn | setvar | prepare | run | getvar
+	Name string     `json:"name,omitempty"`
+	V    lang.Value `json:"v"`
+}
+
+// ApiCase is a script with a generated order of API calls.
+type ApiCase struct {
+	Prop   string    `json:"prop"`
+	Kind   string    `json:"kind"`
+	Script string    `json:"script"`
+	NoOpt  bool      `json:"noopt"`
+	Steps  []ApiStep `json:"steps"`
+	Msg    string    `json:"message,omitempty"`
+}
+
+const apiScript = `calls = calls + 1; a = hf(calls); b = other(); seenv = v; return [a, b, v, w];`
+
+func runApiCase(c *ApiCase) error {
+	r := eng.NewRunner(c.Script)
+	// model of the host-side bindings
+	fnVal := map[string]lang.Value{}
+	vars := map[string]lang.Value{"calls": lang.Int(0)}
+	r.E.SetVariable("calls", eng.ToObject(lang.Int(0)))
+	prepared := false
+	add := func(name string, v lang.Value) {
+		val := v
+		r.E.AddFunction(name, func(args []object.Object) object.Object { return eng.ToObject(val) })
+		fnVal[name] = val
+	}
+	get := func(name string) lang.Value {
+		if v, ok := vars[name]; ok {
+			return v
+		}
+		return lang.Null()
+	}
+	for i, s := range c.Steps {
+		switch s.Op {
+		case "addfn":
+			add(s.Name, s.V)
+		case "setvar":
+			r.E.SetVariable(s.Name, eng.ToObject(s.V))
+			vars[s.Name] = s.V
+		case "prepare":
+			if prepared {
+				continue // a second Prepare is outside the documented call order
+			}
+			if err, pan := r.Prepare(c.NoOpt); err != nil || pan != nil {
+				return fmt.Errorf("step %d: Prepare failed: %v %v", i, err, pan)
+			}
+			prepared = true
+		case "getvar":
+			got, gerr := eng.FromObject(r.E.GetVariable(s.Name))
+			if gerr != nil || !lang.DeepEqual(got, get(s.Name)) {
+				return fmt.Errorf("step %d: GetVariable(%s) = %s, expected %s", i, s.Name, got.Describe(), get(s.Name).Describe())
+			}
+		case "run":
+			if !prepared {
+				continue
+			}
+			res := r.Execute(nil)
+			if res.Panic != nil {
+				return fmt.Errorf("step %d: panic: %v", i, res.Panic)
+			}
+			_, okA := fnVal["hf"]
+			_, okB := fnVal["other"]
+			// the script: calls = calls + 1 happens before the first call
+			if c, ok := vars["calls"]; ok && c.K == lang.KInt {
+				vars["calls"] = lang.Int(c.I + 1)
+			} else {
+				// calls was overwritten with a non-number: the script fails at once
+				if res.Err == nil {
+					return fmt.Errorf("step %d: expected a run-time error (calls is %s)", i, get("calls").Describe())
+				}
+				continue
+			}
+			if !okA || !okB {
+				if res.Err == nil {
+					return fmt.Errorf("step %d: a call of a function that was never added returned %s", i, res.Val.Describe())
+				}
+				if okA {
+					vars["a"] = fnVal["hf"]
+				}
+				continue
+			}
+			if res.Err != nil {
+				return fmt.Errorf("step %d: unexpected error: %v", i, res.Err)
+			}
+			want := lang.Array(fnVal["hf"], fnVal["other"], get("v"), get("w"))
+			if !lang.DeepEqual(res.Val, want) {
+				return fmt.Errorf("step %d: the script returned %s; with the functions and variables given last it must return %s", i, res.Val.Describe(), want.Describe())
+			}
+			vars["a"], vars["b"], vars["seenv"] = fnVal["hf"], fnVal["other"], get("v")
+		}
+	}
+	return nil
+}
+
+func init() {
+	replayers["C20/api-order"] = func(raw []byte) error {
+		var c ApiCase
+		if err := json.Unmarshal(raw, &c); err != nil {
+			return err
+		}
+		for i := range c.Steps {
+			c.Steps[i].V.Fix()
+		}
+		return runApiCase(&c)
+	}
+}
+
+func TestC20ApiOrders(t *testing.T) {
+	defer silenceAs("apiorders")()
+	col := evid.New("C20", "apiorders", "")
+	rapidCheck(t, col, func(rt *rapid.T) {
+		c := &ApiCase{Prop: "C20", Kind: "api-order", Script: apiScript, NoOpt: rapid.Bool().Draw(rt, "noopt")}
+		n := rapid.IntRange(3, 16).Draw(rt, "nsteps")
+		preparedAt := rapid.IntRange(0, n-1).Draw(rt, "prepareat")
+		reAdded := false
+		for i := 0; i < n; i++ {
+			if i == preparedAt {
+				c.Steps = append(c.Steps, ApiStep{Op: "prepare"})
+			}
+			switch gen.Uniform(rt, "op", 8) {
+			case 0, 1:
+				name := rapid.SampledFrom([]string{"hf", "hf", "other"}).Draw(rt, "fname")
+				c.Steps = append(c.Steps, ApiStep{Op: "addfn", Name: name, V: gen.Scalar(rt, "fval", lang.KInt, lang.KString, lang.KBool, lang.KFloat)})
+				if i > preparedAt {
+					reAdded = true
+				}
+			case 2:
+				c.Steps = append(c.Steps, ApiStep{Op: "setvar", Name: rapid.SampledFrom([]string{"v", "w", "v", "calls"}).Draw(rt, "vname"), V: gen.Scalar(rt, "vval", lang.KInt, lang.KString, lang.KBool, lang.KNull)})
+			case 3:
+				c.Steps = append(c.Steps, ApiStep{Op: "getvar", Name: rapid.SampledFrom([]string{"v", "w", "a", "b", "seenv", "calls", "nope"}).Draw(rt, "gname")})
+			default:
+				c.Steps = append(c.Steps, ApiStep{Op: "run"})
+			}
+		}
+		if err := runApiCase(c); err != nil {
+			c.Msg = err.Error()
+			violation(rt, "C20", c, "%v", err)
+		}
+		if reAdded {
+			col.Class("function-replaced-after-prepare")
+		}
+		cc := c
+		col.Case(fmt.Sprint(c.Steps, c.NoOpt), true, func() interface{} {
+			var steps []string
+			for _, s := range cc.Steps {
+				switch s.Op {
+				case "addfn", "setvar":
+					steps = append(steps, fmt.Sprintf("%s(%s, %s)", s.Op, s.Name, s.V.Describe()))
+				case "getvar":
+					steps = append(steps, "getvar("+s.Name+")")
+				default:
+					steps = append(steps, s.Op)
+				}
+			}
+			return map[string]interface{}{"script": cc.Script, "calls": steps}
+		})
+	})
+}
